@@ -138,7 +138,7 @@ impl<'a, T> ViewAccess<'a, T> for PrimitiveView<'a, T> {
 
 impl<'a, O: Offset> ViewAccess<'a, [u8]> for BytesView<'a, O> {
     fn get(&self, idx: usize) -> Result<Option<&'a [u8]>> {
-        if idx + 1 > self.offsets.len() {
+        if idx + 1 >= self.offsets.len() {
             fail!(
                 "Invalid access: tried to get element {idx} of array with {len} elements",
                 len = self.offsets.len().saturating_sub(1)
@@ -153,7 +153,10 @@ impl<'a, O: Offset> ViewAccess<'a, [u8]> for BytesView<'a, O> {
 
         let start = self.offsets[idx].try_into_usize()?;
         let end = self.offsets[idx + 1].try_into_usize()?;
-        Ok(Some(&self.data[start..end]))
+        let Some(data) = self.data.get(start..end) else {
+            fail!("Invalid access: offsets {start}..{end} are not a valid range of the data");
+        };
+        Ok(Some(data))
     }
 }
 
